@@ -10,7 +10,7 @@
    kid ah a b = (same hash code) && (Compare = 0); on atoms it is Compare = 0 (kid_atoms).
    zop_ok o : the key of o is not of the shape [[a]] (see nested_wrap_refuted). *)
 From Coq Require Import List ZArith Bool.
-From ZV Require Import Model.HashTbl Proofs.HashTblProofs.
+From ZV Require Import Model.HashTbl Model.HashObj Proofs.HashTblProofs Proofs.HashObjProofs.
 Import ListNotations.
 Open Scope Z_scope.
 
@@ -148,6 +148,79 @@ Proof.
 Qed.
 Print Assumptions generic_history_refines.
 
+(* ---- 5b. key OBJECTS (Model/HashObj.v): every call passes its own object, of ANY identity ---- *)
+
+(* the hash over key objects is the insertion-ordered map over key objects: keys, hpair, the range
+   walks hand out the object of the first insertion since the key was last absent; the identities
+   are arbitrary integers (not even assumed different), the hash of non-atom keys is arbitrary *)
+Theorem objects_hash_is_ordered_map : forall ah ops, Forall oop_ok ops ->
+  let t := orun ah ops in let s := os_run ah ops in
+  OInv ah t /\ oabs ah t = s /\
+  olen t = s_len okey Z s /\ okeys t = s_keys okey Z s /\
+  (forall k, okey_ok k = true -> oget ah t k = os_lookup ah s k) /\
+  (forall k, okey_ok k = true -> ogetd ah t k = os_lookup ah s k) /\
+  (forall pos, ohpair ah t pos = s_pair okey Z s pos) /\
+  (forall pos, orange_pair ah t pos = s_pair okey Z s pos) /\
+  (forall pos, orange_key ah t pos = s_range_key okey Z s pos) /\
+  ojson ah t = s_json okey Z s /\ oloop_macro ah t = s_loop okey Z s /\ oloop_infix ah t = s_loop okey Z s /\
+  ostr ah t = s_str okey Z s.
+Proof. exact o_hash_is_ordered_map. Qed.
+Print Assumptions objects_hash_is_ordered_map.
+
+(* WHICH object carries a key influences nothing: the content (and len, keys, both lookups) of the hash
+   driven with key objects is that of the hash driven with the bare keys *)
+Theorem objects_irrelevant : forall ah ops, Forall oop_ok ops ->
+  map erase_kv (oabs ah (orun ah ops)) = zabs ah (zrun ah (map erase_op ops)) /\
+  olen (orun ah ops) = zlen (zrun ah (map erase_op ops)) /\
+  map erase (okeys (orun ah ops)) = zkeys (zrun ah (map erase_op ops)) /\
+  (forall k, okey_ok k = true -> oget ah (orun ah ops) k = zget ah (zrun ah (map erase_op ops)) (erase k)) /\
+  (forall k, okey_ok k = true -> ogetd ah (orun ah ops) k = zgetd ah (zrun ah (map erase_op ops)) (erase k)).
+Proof. exact HashObjProofs.objects_irrelevant. Qed.
+Print Assumptions objects_irrelevant.
+
+Theorem objects_irrelevant_obs : forall ah ops, Forall oop_ok ops ->
+  let t := orun ah ops in let z := zrun ah (map erase_op ops) in
+  (forall pos, zhpair ah z pos = omap erase_kv (ohpair ah t pos)) /\
+  (forall pos, zrange_pair ah z pos = omap erase_kv (orange_pair ah t pos)) /\
+  (forall pos, zrange_key ah z pos = omap erase (orange_key ah t pos)) /\
+  zjson ah z = omap (fun r => (map erase_kv (fst r), map erase (snd r))) (ojson ah t) /\
+  zloop_macro ah z = omap (map erase_kv) (oloop_macro ah t) /\
+  zloop_infix ah z = omap (map erase_kv) (oloop_infix ah t) /\
+  zstr ah z = (map erase_kv (fst (ostr ah t)), snd (ostr ah t)).
+Proof. exact HashObjProofs.objects_irrelevant_obs. Qed.
+Print Assumptions objects_irrelevant_obs.
+
+Theorem identity_oblivious : forall ah ops1 ops2, Forall oop_ok ops1 ->
+  map erase_op ops1 = map erase_op ops2 ->
+  map erase_kv (oabs ah (orun ah ops1)) = map erase_kv (oabs ah (orun ah ops2)).
+Proof. exact HashObjProofs.identity_oblivious. Qed.
+Print Assumptions identity_oblivious.
+
+Theorem spec_erase : forall ah ops, map erase_kv (os_run ah ops) = zs_run ah (map erase_op ops).
+Proof. exact HashObjProofs.spec_erase. Qed.
+Print Assumptions spec_erase.
+
+(* what sits where: every KeyOrder object was passed (up to the unwrapping of [k], which yields the
+   ELEMENT object) by an hset of the history; HashSet leaves the PASSED object in the bucket; for any
+   key type and comparison KeyOrder changes only by appending the passed object or dropping one entry *)
+Theorem keys_are_passed_objects : forall ah ops x, In x (okeys (orun ah ops)) ->
+  exists k v, In (OSet k v) ops /\ x = ounwrap k.
+Proof. exact o_keys_are_passed_objects. Qed.
+Print Assumptions keys_are_passed_objects.
+
+Theorem hset_stores_passed_object : forall ah t k v,
+  exists b, b_find okey Z (buckets (ostep ah t (OSet k v))) (ohash ah (ounwrap k)) = Some b /\ In (ounwrap k, v) b.
+Proof. exact o_hset_stores_passed_object. Qed.
+Print Assumptions hset_stores_passed_object.
+
+Theorem korder_step : forall (K V : Type) (beq keq : K -> K -> bool) (hcode : K -> Z) (unwrap : K -> K) (t : tbl K V) o,
+  let t' := step K V beq keq hcode unwrap t o in
+  korder t' = korder t \/
+  (exists k v, o = OSet k v /\ korder t' = korder t ++ [unwrap k]) \/
+  (exists k, o = ODel k /\ korder t' = remove_first (fun x => keq x (unwrap k)) (korder t)).
+Proof. exact HashObjProofs.korder_step. Qed.
+Print Assumptions korder_step.
+
 (* ---- 6. the side condition that remains, and why (finding; replayed on the real code) ---- *)
 
 (* FULL statement wanted: hash_is_ordered_map without the premise Forall zop_ok ops.
@@ -188,6 +261,24 @@ Example repaired_run :
   /\ let t := zrun ah [OSet (KArr [AInt 1; AInt 97]) 1; OSet (KArr [AInt 1; AChar 97]) 2; ODel (KArr [AInt 1; AChar 97])] in
      zkeys t = [KArr [AInt 1; AInt 97]] /\ zhpair ah t 0 = Ok (KArr [AInt 1; AInt 97], 1) /\ zlen t = Ok 1.
 Proof. cbv zeta. repeat split; vm_compute; reflexivity. Qed.
+
+(* key objects: 97 set through object 100, updated through the char object 200 (the bucket now holds
+   200, KeyOrder still 100), deleted through the array form [97] (objects 300/302), set again through
+   ['a'] (objects 400/402): the key list hands out the ELEMENT object 402; the int with the same code
+   in another spelling and a colliding symbol stay apart *)
+Example objects_run :
+  let ah := fun _ : key => 5 in
+  let ops1 := [OSet (OAtom 100 (AInt 97)) 1; OSet (OAtom 200 (AChar 97)) 2] in
+  let ops2 := ops1 ++ [ODel (OArr 300 [(302, AInt 97)]); OSet (OAtom 400 (ASym 97)) 4; OSet (OArr 500 [(502, AChar 97)]) 5] in
+  okeys (orun ah ops1) = [OAtom 100 (AInt 97)]
+  /\ buckets (orun ah ops1) = [(97, [(OAtom 200 (AChar 97), 2)])]
+  /\ oabs ah (orun ah ops1) = [(OAtom 100 (AInt 97), 2)]
+  /\ okeys (orun ah ops2) = [OAtom 400 (ASym 97); OAtom 502 (AChar 97)]
+  /\ oabs ah (orun ah ops2) = os_run ah ops2
+  /\ olen (orun ah ops2) = Ok 2
+  /\ ogetd ah (orun ah ops2) (OArr 0 [(0, AInt 97)]) = Some 5
+  /\ Forall oop_ok ops2.
+Proof. cbv zeta. repeat split; try (vm_compute; reflexivity); repeat constructor. Qed.
 
 Example fnv32_s : fnv32 [115] = 84696428.
 Proof. vm_compute. reflexivity. Qed.
